@@ -55,7 +55,7 @@ ASSUMPTIONS = ["the library is one built by Library.add from the splitter's bloc
 PARTIAL = []
 
 STRING_DEFS = ["@string{abc = {V1}}", '@string{abc = "V2"}', "@string{ABC = {V3}}", "@string{xy = abc}", "@string{abc = 5}",
-               "@string{abc # abc = {HASH}}"]
+               "@string{abc # abc = {HASH}}", "@String \t{xy = {BLANK}}"]
 FIELD_VALUES = ["abc", "ABC", "Abc", "{abc}", '"abc"', "abc # abc", "abc # xy", "undef", "12", "xy", '"abc" # abc', "{abc", '"',
                 # names that BibTeX styles predefine as macros: without an @string in the document they are undefined names
                 "jan", "mar", "dec", "acm"]
@@ -131,7 +131,7 @@ def gen(tier, rng):
             if n == 3 and quick and rng.random() < 0.5:
                 continue
             t = "\n".join(combo)
-            yield {"op": "parse", "t": t}
+            yield {"op": "parse", "t": t, "items": 1}
             yield {"op": "resolve", "t": t, "inplace": (len(t) + n) % 2 == 0}
     # a list obtained from default_parse_stack() belongs to the caller: after they changed it, a default parse is the same
     for how in ("pop", "poplast", "clear", "reverse"):
@@ -304,6 +304,9 @@ def oracle(case):
         keys = [m.group(1).strip() for m in _re.finditer(r"@string[ \t]*\{([^={}@]*)=", case["t"], _re.I)]
         n_defs = sum(1 for b in raw.blocks if isinstance(b, M.String)
                      or (isinstance(b, M.DuplicateBlockKeyBlock) and isinstance(b.ignore_error_block, M.String)))
+        if len(keys) != n_defs and case.get("items"):
+            # a document made of whole items, each on its own line: every `@string{key =` in it is a definition
+            return "the document holds %d @string definitions (%r), %d blocks were parsed as @string" % (len(keys), keys, n_defs)
         if len(keys) == n_defs:
             firsts = list(dict.fromkeys(keys))
             live = [b.key for b in out.strings]
